@@ -17,7 +17,12 @@ pub struct MatchState<'a> {
     pub level: usize,
     pub capture: [(usize, isize); MAXCAPTURES],
     depth: u32,
+    /// matcher work counter (charged to the interpreter's step budget) and its cap
+    pub ops: u64,
+    pub max_ops: u64,
 }
+
+pub const BUDGET_MARK: &str = "\u{0}budget";
 
 type M = Result<Option<usize>, String>;
 
@@ -44,7 +49,7 @@ fn class_match(c: u8, cl: u8) -> bool {
 
 impl<'a> MatchState<'a> {
     pub fn new(src: &'a [u8], pat: &'a [u8]) -> Self {
-        MatchState { src, pat, level: 0, capture: [(0, 0); MAXCAPTURES], depth: MAXCCALLS }
+        MatchState { src, pat, level: 0, capture: [(0, 0); MAXCAPTURES], depth: MAXCCALLS, ops: 0, max_ops: u64::MAX }
     }
     pub fn reset(&mut self) {
         self.level = 0;
@@ -161,6 +166,7 @@ impl<'a> MatchState<'a> {
         while self.single_match(s + i, p, ep) {
             i += 1;
         }
+        self.ops += (i as u64) / 8;
         loop {
             if let Some(r) = self.do_match(s + i, ep + 1)? {
                 return Ok(Some(r));
@@ -231,6 +237,10 @@ impl<'a> MatchState<'a> {
     pub fn do_match(&mut self, s: usize, p: usize) -> M {
         if self.depth == 0 {
             return Err("pattern too complex".into());
+        }
+        self.ops += 1;
+        if self.ops > self.max_ops {
+            return Err(BUDGET_MARK.into());
         }
         self.depth -= 1;
         let r = self.match_inner(s, p);
